@@ -149,20 +149,38 @@ theorem count_kids : ∀ (es : List Item), SimpleKids es → ∀ (n : Nat) (firs
 end
 
 
+theorem count_rpcOpts (os : List SOpt) (ho : RpcOpts os) : (rpcChunks os).length ≤ (rpcToks0 os).length := by
+  rw [← ho.whole]
+  apply length_le_flatten
+  intro c hc he
+  obtain ⟨r, hr⟩ := ho.chunks c hc
+  rw [he] at hr
+  simp [Grammar.optionStmt] at hr
+
 theorem count_rpcs : ∀ (es : List Item), SimpleRpcs es → ∀ (n : Nat) (first : Bool) (le0 lt L : Nat) (g : Bool),
-    es.length ≤ (toksOf (elemsCmds n es first le0 lt) g L).length ∧ needAll es = 0
+    es.length + needAll es ≤ (toksOf (elemsCmds n es first le0 lt) g L).length
   | [], _, _, _, _, _, _, _ => by simp [needAll]
   | .rpc l i name inT outT opts :: r, h, n, first, le0, lt, L, g => by
     obtain ⟨⟨hl, ho, hname, ⟨sI, aI, fI, rI, hfI, hrI, hin, _⟩, ⟨sO, aO, fO, rO, hfO, hrO, hout, _⟩⟩, hr⟩ := h
-    subst ho hin hout
-    rw [toksOf_elems_cons n (Item.rpc l i name (rpcTyStr sI aI fI rI) (rpcTyStr sO aO fO rO) []) r first le0 lt g L ⟨hl, rfl⟩]
-    have ih := count_rpcs r hr n false (Item.rpc l i name (rpcTyStr sI aI fI rI) (rpcTyStr sO aO fO rO) []).loc.endLine (Item.rpc l i name (rpcTyStr sI aI fI rI) (rpcTyStr sO aO fO rO) []).typeOrder
-      (rdItem (Item.rpc l i name (rpcTyStr sI aI fI rI) (rpcTyStr sO aO fO rO) [])
-        (startLine (g || gapBefore first le0 lt (Item.rpc l i name (rpcTyStr sI aI fI rI) (rpcTyStr sO aO fO rO) [])) L)).2
-      (Item.rpc l i name (rpcTyStr sI aI fI rI) (rpcTyStr sO aO fO rO) []).gapEnder
-    simp only [itemToks, lineToks_rpc n name sI aI fI rI sO aO fO rO _ hname hfI hrI hfO hrO, rpcToks,
-      List.length_append, List.length_cons, needAll, need1] at ih ⊢
-    omega
+    subst hin hout
+    have hco := count_rpcOpts opts ho
+    rw [toksOf_elems_cons n (Item.rpc l i name (rpcTyStr sI aI fI rI) (rpcTyStr sO aO fO rO) opts) r first le0 lt g L ⟨hl, ho⟩]
+    have ih := count_rpcs r hr n false (Item.rpc l i name (rpcTyStr sI aI fI rI) (rpcTyStr sO aO fO rO) opts).loc.endLine (Item.rpc l i name (rpcTyStr sI aI fI rI) (rpcTyStr sO aO fO rO) opts).typeOrder
+      (rdItem (Item.rpc l i name (rpcTyStr sI aI fI rI) (rpcTyStr sO aO fO rO) opts)
+        (startLine (g || gapBefore first le0 lt (Item.rpc l i name (rpcTyStr sI aI fI rI) (rpcTyStr sO aO fO rO) opts)) L)).2
+      (Item.rpc l i name (rpcTyStr sI aI fI rI) (rpcTyStr sO aO fO rO) opts).gapEnder
+    simp only [itemToks]
+    split
+    · simp only [lineToks_rpc n name sI aI fI rI sO aO fO rO _ hname hfI hrI hfO hrO, rpcToks,
+        List.length_append, List.length_cons, needAll, need1] at ih ⊢
+      rename_i he
+      have : opts = [] := by simpa using he
+      subst this
+      simp only [rpcChunks, rpcToks0_nil, splitOpt, List.length_nil] at ih ⊢
+      omega
+    · simp only [lineToks_rpcOpen n name sI aI fI rI sO aO fO rO _ hname hfI hrI hfO hrO, rpcOpenToks,
+        List.length_append, List.length_cons, needAll, need1, sh_length] at ih ⊢
+      omega
   | .field _ :: _, h, _, _, _, _, _, _ => h.1.elim
   | .block _ _ _ _ _ _ _ :: _, h, _, _, _, _, _, _ => h.1.elim
 
@@ -391,7 +409,7 @@ theorem plain_quiet : ∀ (e : Item), Plain e → e.quiet
   | .rpc _ _ _ _ _ _, h => by
     simp only [Plain] at h
     simp only [Item.quiet]
-    exact ⟨h.1, by rw [h.2]; simp⟩
+    exact ⟨h.1, h.2.unl⟩
   | .block _ _ l _ _ os ks, h => by
     simp only [Plain] at h
     simp only [Item.quiet]
